@@ -77,6 +77,7 @@ __CPROVER_requires(MBUFF_INV_NONEMPTY(self))
 # else
 __CPROVER_requires(MBUFF_INV_EMPTY(self))
 # endif
+__CPROVER_requires(MB_WIT_SELF(self))
 __CPROVER_assigns()
 ENS(__CPROVER_is_fresh(RV, sizeof(*RV)))
 ENS(RV->parent.cls == self->parent.cls && RV->len == self->len && RV->size == self->size)
